@@ -694,6 +694,20 @@ class KeyChecker:
         pq = ('param', i)
         if pq in fixed or ('addr', pq) in fixed:
             return True
+        # `the spelling is empty`, said with empty(): one character sequence of length 0 (C03)
+        for c, val in conds:
+            if val and isinstance(c, tuple) and len(c) >= 4 and c[0] in ('call', 'vcall') and contracts.fn_simple(c[1]) == 'empty' and not c[3]:
+                x = c[2]
+                while isinstance(x, tuple) and x and x[0] in ('call', 'vcall') and x != pq:
+                    nm = contracts.fn_simple(x[1])
+                    if nm == 'characters':
+                        x = x[2]
+                    elif nm in ('intern', 'get_string') and len(x[3]) == 1:
+                        x = x[3][0]
+                    else:
+                        break
+                if x == pq:
+                    return True
         # the empty spelling: strings are unified by content (C03) and there is one character sequence of
         # length 0, so `size() == 0` on the parameter's characters fixes a String / word parameter
         for t in fixed:
